@@ -347,6 +347,124 @@ class C15(SingleRun):
         s = r["stats"]
         return s.get("api_calls", 0) >= 10 and any(k.startswith("fault_") and v for k, v in s.items())
 
+    # -- admission step (the inspection half of the statement; sampled inputs, see DESIGN 5/C15) ----------
+    ADMISSION_SHARE = 0.12
+    MUTANTS = ("undefined_task", "reserved_name", "no_start", "bad_grammar", "unassigned_var")
+
+    def evaluate(self, seed, tier):
+        K = Keyed(seed)
+        if K.u("profile", "admission") >= self.ADMISSION_SHARE:
+            return SingleRun.evaluate(self, seed, tier)
+        from dst.world import Violation
+        from orquesta.specs import native as native_specs
+        profile = self.profile(seed, tier)
+        prog = driver.make_program(K, profile)
+        rng = K.rng("admission")
+        d = lang.render(prog)
+        kind = rng.choice(self.MUTANTS)
+        stats = {"admission_" + kind: 1}
+        marker = self.mutate(d, prog, kind, rng)
+        out = {"outcome": "ok", "stats": stats, "final": None, "nontrivial": False, "sig": None}
+        if marker is None:
+            stats["admission_not_applicable"] = 1
+            return out
+        try:
+            spec = native_specs.WorkflowSpec(copy.deepcopy(d))
+            report = spec.inspect()
+        except Exception as e:  # noqa
+            out["outcome"] = "violation"
+            out["error"] = Violation("C15", "no_internal_error", "inspect raised %s: %s on a %s mutant" % (type(e).__name__, e, kind))
+            out["case"] = {"mode": "admission", "definition": d, "kind": kind, "marker": marker}
+            return out
+        text = canon(report)
+        markers = marker if isinstance(marker, list) else [marker]
+        if not report or not all(m in text for m in markers):
+            out["outcome"] = "violation"
+            out["error"] = Violation("C15", "reported", "inspection %s for a definition with a %s fault (%r): %s"
+                                     % ("accepted" if not report else "does not name the element", kind, marker, text[:300]))
+            out["case"] = {"mode": "admission", "definition": d, "kind": kind, "marker": marker}
+        out["nontrivial"] = True
+        out["sig"] = digest([kind, marker, canon(d)])
+        out["sample"] = {"admission_mutant": kind, "marker": marker, "report_sections": sorted(report.keys())}
+        return out
+
+    @staticmethod
+    def mutate(d, prog, kind, rng):
+        tasks = d["tasks"]
+        names = list(tasks.keys())
+        withnext = [n for n in names if tasks[n].get("next")]
+        if kind == "undefined_task":
+            cands = [(n, i) for n in withnext for i, tr in enumerate(tasks[n]["next"])
+                     if isinstance(tr.get("do"), list) and any(t in tasks for t in tr["do"])]
+            if not cands:
+                return None
+            n, i = cands[rng.randrange(len(cands))]
+            do = tasks[n]["next"][i]["do"]
+            j = [k for k, t in enumerate(do) if t in tasks][0]
+            # keep the original target reachable through another edge so that only the reference is broken
+            do.append("nosuch_task_zz")
+            return "nosuch_task_zz"
+        if kind == "reserved_name":
+            name = rng.choice(["noop", "fail", "continue", "retry"])
+            tasks[name] = {"action": "core.noop"}
+            return [name, "is reserved with special function"]
+        if kind == "no_start":
+            starts = lang.start_tasks(prog)
+            for st in starts:
+                leaf = names[-1] if names[-1] != st else names[0]
+                tasks[leaf].setdefault("next", []).append({"do": [st]})
+            return "Unable to identify any tasks to start"
+        if kind == "bad_grammar":
+            bad = rng.choice(["<% 1 +/ 2 %>", "{{ 1 +/ 2 }}", "<% ctx(v0 %>", "{{ ctx('v0' }}"])
+            n = names[rng.randrange(len(names))]
+            where = rng.choice(["input", "when", "publish"])
+            if where == "when" and tasks[n].get("next"):
+                tasks[n]["next"][0]["when"] = bad
+            elif where == "publish" and tasks[n].get("next"):
+                tasks[n]["next"][0].setdefault("publish", [])
+                if isinstance(tasks[n]["next"][0]["publish"], list):
+                    tasks[n]["next"][0]["publish"].append({"zz_bad": bad})
+                else:
+                    return None
+            else:
+                tasks[n].setdefault("input", {})["zz_bad"] = bad
+            return bad.replace('"', '\\"')[:8]
+        if kind == "unassigned_var":
+            ref = rng.choice(["<% ctx(zz_unassigned) %>", "<% ctx().zz_unassigned %>", "{{ ctx('zz_unassigned') }}",
+                              "{{ ctx().zz_unassigned }}"])
+            n = names[rng.randrange(len(names))]
+            where = rng.choice(["input", "when", "publish", "output"])
+            if where == "when" and tasks[n].get("next"):
+                tasks[n]["next"][0]["when"] = ref.replace("%>", "= 1 %>").replace("}}", "== 1 }}")
+            elif where == "publish" and tasks[n].get("next") and isinstance(tasks[n]["next"][0].get("publish", []), list):
+                tasks[n]["next"][0].setdefault("publish", []).append({"zz_copy": ref})
+            elif where == "output":
+                d.setdefault("output", []).append({"zz_out": ref})
+            else:
+                tasks[n].setdefault("input", {})["zz_in"] = ref
+            return "zz_unassigned"
+        return None
+
+    def replay_case(self, case, as_prop=None):
+        if case.get("mode") != "admission":
+            return SingleRun.replay_case(self, case, as_prop)
+        from dst.world import Violation
+        from orquesta.specs import native as native_specs
+        try:
+            report = native_specs.WorkflowSpec(copy.deepcopy(case["definition"])).inspect()
+        except Exception as e:  # noqa
+            return {"outcome": "violation", "error": Violation("C15", "no_internal_error", "inspect raised %r" % (e,)), "stats": {}}
+        mk = case["marker"] if isinstance(case["marker"], list) else [case["marker"]]
+        if not report or not all(m in canon(report) for m in mk):
+            return {"outcome": "violation", "stats": {}, "error": Violation(
+                "C15", "reported", "inspection does not report the %s fault (%r)" % (case["kind"], case["marker"]))}
+        return {"outcome": "ok", "stats": {}}
+
+    def shrink(self, case, vi):
+        if case.get("mode") == "admission":
+            return case
+        return SingleRun.shrink(self, case, vi)
+
 
 class C18(SingleRun):
     prop = "C18"
